@@ -932,7 +932,7 @@ func c04PendingRules(c *Ctx) {
 	if a == nil {
 		return
 	}
-	c.floor("C04.R12", 4)
+	c.floor("C04.R12", 5)
 	pending := p.Field(sgPkg, "syncer", "pendingNodes")
 	if pending == nil {
 		c.fail("C04.anchor", "syncer.pendingNodes", token.NoPos, "not found")
@@ -1130,6 +1130,31 @@ func c04PendingRules(c *Ctx) {
 		}
 	} else {
 		c.fail("C04.anchor", "syncer.OnUpsertKey", token.NoPos, "not found")
+	}
+	// the syncer is attached to the gossiper it was handed to as watcher: without Sync the local node's
+	// addresses and endpoints are never published
+	if ng := p.Func(sgPkg, "NewGossip"); ng != nil {
+		c.analysed(fnName(ng))
+		var gnew *ssa.Call
+		allInstrs(ng, func(i ssa.Instruction) {
+			if cl, ok := i.(*ssa.Call); ok && commonName(&cl.Call) == modPath+"/pkg/gossip.New" {
+				gnew = cl
+			}
+		})
+		isSync := func(i ssa.Instruction) bool {
+			cl, ok := i.(*ssa.Call)
+			if !ok || !strings.HasSuffix(commonName(&cl.Call), "server/gossip.syncer).Sync") {
+				return false
+			}
+			a := strip(cl.Call.Args[1])
+			if mi, ok := a.(*ssa.MakeInterface); ok {
+				a = strip(mi.X)
+			}
+			return gnew != nil && a == ssa.Value(gnew)
+		}
+		c.check(gnew != nil && everyPathFrom(gnew, isSync, nil, true) == nil, "C04.R12", fnName(ng)+"/syncer-attached", ng.Pos(), "syncer.Sync(gossiper) follows gossip.New on every path", "the syncer is never attached to the gossiper: the node publishes neither its addresses nor its endpoints, so no other node can route to it")
+	} else {
+		c.fail("C04.anchor", "server/gossip.NewGossip", token.NoPos, "not found")
 	}
 	// a pending node's endpoint map is allocated only where it is nil
 	for _, fn := range methodsOf(p, sgPkg, "syncer") {
